@@ -172,6 +172,62 @@ def check_case(ctx, case):
                 flags.add("toggle-during-call")
                 flags.add(f"toggle-variant-{variant}")
                 continue
+            if op[0] == "call-phased":
+                # coroutine functions: the call and the await are two moments.  A call made while checking is off IS the plain call: an
+                # argument list that does not bind fails at the call (not at the await), and a coroutine obtained while checking was off
+                # runs the plain body whatever the switch says when it is awaited
+                if kind != "async":
+                    continue
+                _, typed, style_seed, bad_at, mode = op
+                off = model_disabled or always_off
+                made = gs.make_args(params, bad_at=bad_at if typed == "ill" else None, style_seed=style_seed)
+                if made is None:
+                    continue
+                args, kwargs, recv = made
+                if mode == "nonbinding":
+                    if any(p["kind"] == "vk" for p in params):
+                        continue
+                    kwargs = dict(kwargs, no_such_parameter_zz=1)
+                flip_to = not model_disabled
+
+                def phased(f, flip):
+                    try:
+                        co = f(*args, **kwargs)
+                    except BaseException as e:  # noqa: BLE001
+                        return "raise-at-call", e
+                    if flip:
+                        jaxtyping.config.update("jaxtyping_disable", flip_to)
+                    try:
+                        co.send(None)
+                    except StopIteration as s_:
+                        return "ok", s_.value
+                    except BaseException as e:  # noqa: BLE001
+                        return "raise-at-await", e
+                    co.close()
+                    return "raise-at-await", RuntimeError("coroutine did not finish")
+
+                rec.calls.clear()
+                rec0.calls.clear()
+                rec.exc = rec0.exc = None
+                st0, val0 = phased(raw0, False)
+                st_, val = phased(dec, mode == "toggle-before-await")
+                ncalls += 1
+                where = f"{'disabled' if off else 'enabled'}-at-the-call {typed}-typed {mode} coroutine call args={args!r} kwargs={kwargs!r} {info} ops={case['ops']}"
+                if mode == "toggle-before-await" and st_ != "raise-at-call":
+                    model_disabled = flip_to
+                if off or (typed == "well" and mode != "nonbinding"):
+                    same = st_ == st0 and ((st_ == "ok" and val is rec.result and len(rec.calls) == 1) or (st_ != "ok" and type(val) is type(val0) and not rec.calls))
+                    if not same:
+                        raise Violation("differs-from-plain", case, f"decorated: {st_} {val!r} (body ran {len(rec.calls)}x); plain: {st0} {val0!r}; {where}")
+                    flags.add(f"coroutine-{mode}-while-{'disabled' if off else 'enabled'}")
+                elif rec.calls:
+                    raise Violation("body-ran-ill-typed", case, f"body ran; {where}")
+                elif mode == "nonbinding":
+                    if not (st_ != "ok" and isinstance(val, TypeError) and not isinstance(val, TypeCheckError)):
+                        raise Violation("differs-from-plain", case, f"decorated: {st_} {val!r}; plain: {st0} {val0!r}; {where}")
+                elif not (st_ != "ok" and isinstance(val, TypeCheckError)):
+                    raise Violation("not-restored", case, f"expected TypeCheckError, got {st_} {val!r}; {where}")
+                continue
             # call
             _, typed, style_seed, bad_at, raising = op[:5]
             off = model_disabled or always_off
@@ -269,13 +325,15 @@ def c19_case(draw):
     ops = []
     n = draw(st.integers(3, 8))
     for _ in range(n):
-        k = draw(st.sampled_from(["call-ill", "set", "call-well", "call-ill", "set", "invalid", "set-key", "call-toggle"]))
+        k = draw(st.sampled_from(["call-ill", "set", "call-well", "call-ill", "set", "invalid", "set-key", "call-toggle"] + (["call-phased", "call-phased"] if kind == "async" else [])))
         if k == "set":
             v = draw(valid)
             ops.append(["set", v[0], v[1]])
         elif k == "set-key":
             v = draw(valid)
             ops.append(["set-key", v[0], v[1], draw(st.sampled_from(["JAXTYPING_DISABLE", "Jaxtyping_Disable", "jaxtyping_DISABLE"]))])
+        elif k == "call-phased":
+            ops.append(["call-phased", draw(st.sampled_from(["ill", "well"])), draw(st.integers(0, 15)), draw(st.sampled_from(annotated)), draw(st.sampled_from(["nonbinding", "toggle-before-await", "plain"]))])
         elif k == "call-toggle":
             ops.append(["call-toggle", draw(st.integers(0, 15)), draw(st.sampled_from([1, 0, 3, 2]))])
         elif k == "invalid":
@@ -342,6 +400,53 @@ HOOK_REENABLE_SCRIPT = textwrap.dedent('''
 ''')
 
 
+PYTEST_FILE = textwrap.dedent('''
+    import typeguard
+    import jaxtyping
+    from jaxtyping import jaxtyped
+
+    @jaxtyped(typechecker=typeguard.typechecked)
+    def g(x: int) -> int:
+        return x
+
+    def test_switch():
+        out = []
+        for fn in (g, __import__("vfmod19").f):
+            try:
+                out.append("RETURNED " + repr(fn("not-an-int")))
+            except jaxtyping.TypeCheckError:
+                out.append("TypeCheckError")
+        print("VF19PYTEST" + "|".join(out))
+''')
+
+
+def run_pytest_sessions(ctx, d, env_base):
+    """The switch inside a pytest session with jaxtyping's plugin loaded (it is auto-loaded in every pytest run of an environment that
+    has jaxtyping installed), with and without --jaxtyping-packages."""
+    with open(os.path.join(d, "test_vf_c19.py"), "w") as f:
+        f.write(PYTEST_FILE)
+    for val in ("1", None):
+        for packages in (False, True):
+            env = dict(env_base, PYTEST_DISABLE_PLUGIN_AUTOLOAD="1", PYTHONDONTWRITEBYTECODE="1")
+            env["PYTHONPATH"] = os.pathsep.join([d, env.get("PYTHONPATH", "")])
+            if val is not None:
+                env["JAXTYPING_DISABLE"] = val
+            cmd = [sys.executable, "-W", "ignore", "-m", "pytest", "-q", "-s", "-p", "no:cacheprovider", "-p", "jaxtyping._pytest_plugin"]
+            if packages:
+                cmd.append("--jaxtyping-packages=vfmod19,typeguard.typechecked")
+            r = subprocess.run(cmd + ["test_vf_c19.py"], cwd=d, env=env, capture_output=True, text=True, timeout=300)
+            line = [l for l in r.stdout.splitlines() if "VF19PYTEST" in l]
+            out = line[0].split("VF19PYTEST", 1)[1] if line else f"no result: {(r.stdout + r.stderr)[-300:]}"
+            if val == "1":
+                exp = "RETURNED 'not-an-int'|RETURNED 'not-an-int'"
+            else:
+                exp = "TypeCheckError|" + ("TypeCheckError" if packages else "RETURNED 'not-an-int'")
+            ctx.note(["pytest-env", val, packages], True, classes=[f"pytest-session-env-{val}"], sample={"pytest session, JAXTYPING_DISABLE": val, "--jaxtyping-packages": packages, "output": out})
+            if out != exp:
+                raise Violation("env-pytest-session", {"env": val, "pytest": True, "packages": packages},
+                                f"pytest session (plugin loaded, --jaxtyping-packages {'given' if packages else 'not given'}) with JAXTYPING_DISABLE={val!r}: decorated function | module vfmod19: {out!r}, expected {exp!r}")
+
+
 def run_subprocesses(ctx):
     env_base = {k: v for k, v in os.environ.items() if k not in ("JAXTYPING_DISABLE",)}
     cases = [("1", "off"), ("true", "off"), ("TRUE", "off"), ("0", "on"), ("false", "on"), ("False", "on"), (None, "on"),
@@ -372,6 +477,7 @@ def run_subprocesses(ctx):
             ctx.note(["hook-env", val], True, classes=[f"hook-env-{val}"], sample={"hooked module, JAXTYPING_DISABLE": val, "output": out})
             if out != exp:
                 raise Violation("env-hooked-module", {"env": val, "hook": True}, f"hooked module with JAXTYPING_DISABLE={val!r}: {out!r} (stderr {r.stderr[-300:]!r}), expected {exp!r}")
+        run_pytest_sessions(ctx, d, env_base)
         with open(os.path.join(d, "vfmod19b.py"), "w") as f:
             f.write("def f(x: int) -> int:\n    return x\n")
         env = dict(env_base, JAXTYPING_DISABLE="1")
